@@ -95,13 +95,16 @@ def expected_counts(vc, objs, override, k, NCs):
             for o in objs]
 
 
-def mk_override(vc, objs, present):
+def mk_override(vc, objs, present, strings_whole=False):
     if not present:
         return None
     d = {}
     for i, o in enumerate(objs):
         c = vc.int("ov%d" % i, lo=0)
         vc.assume(c <= o.number_values)
+        if strings_whole and o._f["__width"] is None:
+            # documented limitation (C06 statement): truncated chunks with string data are not skipped over
+            vc.assume(c == o.number_values)
         d[o.path] = c
     return d
 
@@ -241,8 +244,7 @@ def _interleaved(vc):
     rd = vc.new("tdms_segment.InterleavedDataReader", num_chunks=nch, final_chunk_lengths_override=None,
                 endianness=order)
     out = vc.call_method(rd, "read_data_chunks", f, objs, nch)
-    vc.ensure("no-exception", out.kind == "ret",
-              known=[("KF-C01-interleaved-complex", any(c in (0x08000C, 0x10000D) for c in codes))])
+    vc.ensure("no-exception", out.kind == "ret")
     if out.kind != "ret":
         return
     chunks = list(out.value)
@@ -271,3 +273,247 @@ def _interleaved(vc):
         col += w
     for (p, n) in f.reads:
         vc.ensure("reads-within-the-requested-rows", And(p >= pos0, p + n <= pos0 + want * W), kind="read-set")
+
+
+# ---------------------------------------------------------------------------- segment-level channel stream
+
+def l1_effect(interp, file, objs, t, ov, NCs, idx, order="<"):
+    """effect of ContiguousDataReader._read_channel_data_chunk at the current cursor (its proved contract)"""
+    st = sym.get_state()
+    pos0 = file.pos
+    last = And(ov is not None, idx == NCs - 1)
+    counts = [Ite(last, ov[o.path], o.number_values) if ov is not None else o.number_values for o in objs]
+    RC = interp.get("base_segment.RawChannelDataChunk")
+    if t >= len(objs):
+        o = Obj(RC)
+        o._f.update(data=None, scaler_data=None)
+        return o, None
+    before = 0
+    for i in range(t):
+        w = objs[i]._f["__width"]
+        full = counts[i] == objs[i].number_values
+        if w is None:
+            st.check("call-pre/_read_channel_data_chunk/no-truncated-unsized-predecessor", full, kind="call-pre")
+            before = before + objs[i].data_size
+        else:
+            before = before + Ite(full, objs[i].data_size, w * counts[i])
+    wt = objs[t]._f["__width"]
+    base = pos0 + before
+    nbytes = counts[t] * wt if wt is not None else objs[t].data_size
+    file.reads.append((base, nbytes))
+    file.pos = base + nbytes
+    o = Obj(RC)
+    o._f.update(data=ValArr(base, counts[t], order, file.content), scaler_data=None)
+    return o, (before, counts[t], nbytes)
+
+
+SEG_PALETTE_SHAPES = [k for k in shapes(2) if "ts" not in k]
+SEG_VARIANTS = [("%s,t=%d,%s" % ("+".join(kinds), t, "override" if ov else "full"), (kinds, t, ov))
+                for kinds in SEG_PALETTE_SHAPES for t in range(len(kinds) + 1) for ov in (False, True)]
+
+
+def _setup_seg_stream(interp):
+    def get_chunk_size(interp, f, args, kwargs):
+        return args[0]._f["__chunk_bytes"]
+
+    def get_data_objects(interp, f, args, kwargs):
+        return args[0]._f["__objs"]
+
+    def read_channel_data_chunks(interp, f, args, kwargs):
+        rd, file, data_objects, channel_path, chunk_offset, stop_chunk = args
+        st = sym.get_state()
+        g = st.ghost["seg"]
+        n = Max(stop_chunk - chunk_offset, 0)
+
+        def item(k):
+            idx = chunk_offset + k
+            chunk, info = l1_effect(interp, file, g["objs"], g["t"], g["ov"], g["NCs"], idx)
+            st.ghost["last_item"] = (idx, info, chunk)
+            return chunk
+        return SymSeq(n, item, "channel-chunks")
+
+    interp.contracts_at_calls["nptdms.tdms_segment:TdmsSegment._get_chunk_size"] = get_chunk_size
+    interp.contracts_at_calls["nptdms.tdms_segment:TdmsSegment._get_data_objects"] = get_data_objects
+    interp.contracts_at_calls["nptdms.base_segment:BaseDataReader.read_channel_data_chunks"] = \
+        read_channel_data_chunks
+
+    def inv(env, i, st):
+        v = env.vars
+        file = v["file"]
+        return [("cursor-at-start-of-chunk-i", file.pos == v["initial_position"] + i * v["chunk_size"])]
+
+    interp.loop_specs[("nptdms.tdms_segment:TdmsSegment._read_channel_data_chunks", 0)] = LoopSpec(
+        inv, havoc={"__locals__": ("i", "chunk"),
+                    "__filepos": lambda st, env: setattr(env.vars["file"], "pos", st.fresh_int("pos")) or 0},
+        name="channel-chunks")
+
+    def on_yield(qual, value, env):
+        st = sym.get_state()
+        if qual == "nptdms.tdms_segment:TdmsSegment._read_channel_data_chunks":
+            g = st.ghost["seg"]
+            (idx, info, chunk) = st.ghost["last_item"]
+            i = env.vars["i"]
+            st.check("yield/chunk-index-follows-the-request", idx == g["chunk_offset"] + i, kind="yield")
+            if info is not None:
+                before, cnt, nbytes = info
+                lo = g["data_position"] + idx * g["chunk_bytes"]
+                st.check("yield/values-at-the-channel's-slot-of-chunk-idx", value.data.base == lo + before,
+                         kind="yield")
+                st.check("yield/value-count-of-chunk-idx", value.data.count == cnt, kind="yield")
+                # C19: the bytes fetched lie inside this channel's slot of this chunk
+                st.check("c19/read-inside-the-chunk", And(lo + before >= lo, lo + before + nbytes <= lo + g["chunk_bytes"]),
+                         kind="read-set")
+            # C05: any other operation may run while the generator is suspended
+            env.vars["file"].pos = st.fresh_int("pos_after_yield")
+    interp.yield_hook = on_yield
+
+
+@harness("seg_read_for_channel", ["tdms_segment.TdmsSegment.read_raw_data_for_channel",
+                                  "tdms_segment.TdmsSegment._read_channel_data_chunks",
+                                  "tdms_segment.TdmsSegment._get_data_reader",
+                                  "tdms_segment.TdmsSegment._have_daqmx_objects",
+                                  "tdms_segment.TdmsSegment._have_interleaved_data"],
+         ["C04", "C05", "C19", "C01"], variants=SEG_VARIANTS, setup=_setup_seg_stream, level="shape-bounded",
+         bound="<= 2 data objects per segment over {Int16, DoubleFloat, String}, target at every position or "
+               "absent; unbounded number of chunks (loop invariant), symbolic counts / offsets; the file "
+               "cursor is havocked at every yield")
+def _seg_read_for_channel(vc):
+    kinds, t, has_ov = vc.variant
+    st = vc.st
+    objs = mk_objects(vc, kinds)
+    f = SFile("f")
+    f.pos = vc.int("pos0", lo=0)
+    vc.assume(f.size >= 0)
+    NCs = vc.int("num_chunks", lo=0)
+    ov = mk_override(vc, objs, has_ov, strings_whole=True)
+    if has_ov:
+        vc.assume(NCs >= 1)
+    chunk_bytes = 0
+    for o in objs:
+        chunk_bytes = chunk_bytes + o.data_size
+    vc.assume(chunk_bytes > 0)
+    data_position = vc.int("data_position", lo=28)
+    seg = vc.new("tdms_segment.TdmsSegment", position=vc.int("position", lo=0), toc_mask=2 | 4 | 8,
+                 next_segment_pos=vc.int("next", lo=0), data_position=data_position, num_chunks=NCs,
+                 final_chunk_lengths_override=ov, ordered_objects=list(objs), object_index=None,
+                 segment_incomplete=False, has_daqmx_objects_cached=None, chunk_size_cached=None,
+                 data_objects_cached=None)
+    seg._f["__chunk_bytes"] = chunk_bytes
+    seg._f["__objs"] = objs
+    chunk_offset = vc.int("chunk_offset", lo=0)
+    num = vc.int("num", lo=0)
+    vc.assume(chunk_offset + num <= NCs)            # precondition established by the caller (harness read_window)
+    st.ghost["seg"] = dict(objs=objs, t=t, ov=ov, NCs=NCs, chunk_offset=chunk_offset, data_position=data_position,
+                           chunk_bytes=chunk_bytes)
+    path = objs[t].path if t < len(objs) else "/'g'/'absent'"
+    g = vc.call_method(seg, "read_raw_data_for_channel", f, path, chunk_offset, num)
+    out = vc.drain(g.value)
+    vc.ensure("no-exception", out.kind == "ret")
+
+
+# ---------------------------------------------------------------------------- segment-level full stream
+
+def _setup_seg_all(interp):
+    def get_chunk_size(interp, f, args, kwargs):
+        return args[0]._f["__chunk_bytes"]
+
+    def read_data_chunks(interp, f, args, kwargs):
+        """contract of BaseDataReader.read_data_chunks over ContiguousDataReader._read_data_chunk
+        (harnesses base_read_data_chunks, contiguous_read_data_chunk): item k reads chunk k at the cursor"""
+        rd, file, data_objects, num_chunks = args
+        st = sym.get_state()
+        g = st.ghost["seg"]
+        objs, ov, NCs = g["objs"], g["ov"], g["NCs"]
+        RC = interp.get("base_segment.RawChannelDataChunk")
+        RD = interp.get("base_segment.RawDataChunk")
+
+        def item(k):
+            last = And(ov is not None, k == NCs - 1)
+            cd = {}
+            start = file.pos
+            for o in objs:
+                cnt = Ite(last, ov[o.path], o.number_values) if ov is not None else o.number_values
+                w = o._f["__width"]
+                nbytes = cnt * w if w is not None else o.data_size
+                c = Obj(RC)
+                c._f.update(data=ValArr(file.pos, cnt, "<", file.content), scaler_data=None)
+                cd[o.path] = c
+                file.reads.append((file.pos, nbytes))
+                file.pos = file.pos + nbytes
+            r = Obj(RD)
+            r._f.update(channel_data=cd)
+            st.ghost["last_chunk"] = (k, start)
+            return r
+        return SymSeq(Max(num_chunks, 0), item, "chunks")
+
+    interp.contracts_at_calls["nptdms.tdms_segment:TdmsSegment._get_chunk_size"] = get_chunk_size
+    interp.contracts_at_calls["nptdms.base_segment:BaseDataReader.read_data_chunks"] = read_data_chunks
+
+    def inv(env, i, st):
+        v = env.vars
+        return [("cursor-at-start-of-chunk-i", v["file"].pos == v["initial_position"] + i * v["chunk_size"])]
+
+    interp.loop_specs[("nptdms.tdms_segment:TdmsSegment._read_data_chunks", 0)] = LoopSpec(
+        inv, havoc={"__locals__": ("i", "chunk"),
+                    "__filepos": lambda st, env: setattr(env.vars["file"], "pos", st.fresh_int("pos")) or 0},
+        name="chunks")
+
+    def on_yield(qual, value, env):
+        st = sym.get_state()
+        if qual != "nptdms.tdms_segment:TdmsSegment._read_data_chunks":
+            return
+        g = st.ghost["seg"]
+        (k, start) = st.ghost["last_chunk"]
+        st.check("yield/chunks-in-order", k == env.vars["i"], kind="yield")
+        lo = g["data_position"] + k * g["chunk_bytes"]
+        off = 0
+        ov, NCs = g["ov"], g["NCs"]
+        last = And(ov is not None, k == NCs - 1)
+        for o in g["objs"]:
+            a = value.channel_data[o.path].data
+            st.check("yield/object-at-its-slot-of-chunk-k[%s]" % o.path, a.base == lo + off, kind="yield")
+            w = o._f["__width"]
+            cnt = Ite(last, ov[o.path], o.number_values) if ov is not None else o.number_values
+            st.check("yield/object-value-count[%s]" % o.path, a.count == cnt, kind="yield")
+            off = off + (cnt * w if w is not None else o.data_size)
+        if g["interruptible"]:
+            # C05: TdmsFile.data_chunks() may be suspended here while other reads use the same file
+            env.vars["file"].pos = st.fresh_int("pos_after_yield")
+    interp.yield_hook = on_yield
+
+
+ALL_SEG_VARIANTS = [("%s,%s,%s" % ("+".join(kinds), "override" if ov else "full", mode), (kinds, ov, mode))
+                    for kinds in SEG_PALETTE_SHAPES for ov in (False, True)
+                    for mode in ("uninterrupted", "interruptible")]
+
+
+@harness("seg_read_raw_data", ["tdms_segment.TdmsSegment.read_raw_data", "tdms_segment.TdmsSegment._read_data_chunks"],
+         ["C01", "C05", "C03"], variants=ALL_SEG_VARIANTS, setup=_setup_seg_all, level="shape-bounded",
+         bound="<= 2 data objects per segment over {Int16, DoubleFloat, String}; unbounded number of chunks "
+               "(loop invariant); in mode `interruptible` the file cursor is havocked at every yield")
+def _seg_read_raw_data(vc):
+    kinds, has_ov, mode = vc.variant
+    st = vc.st
+    objs = mk_objects(vc, kinds)
+    f = SFile("f")
+    f.pos = vc.int("pos0", lo=0)
+    vc.assume(f.size >= 0)
+    NCs = vc.int("num_chunks", lo=0)
+    ov = mk_override(vc, objs, has_ov, strings_whole=True)
+    if has_ov:
+        vc.assume(NCs >= 1)
+    chunk_bytes = 0
+    for o in objs:
+        chunk_bytes = chunk_bytes + o.data_size
+    data_position = vc.int("data_position", lo=28)
+    seg = vc.new("tdms_segment.TdmsSegment", position=vc.int("position", lo=0), toc_mask=2 | 4 | 8,
+                 next_segment_pos=vc.int("next", lo=0), data_position=data_position, num_chunks=NCs,
+                 final_chunk_lengths_override=ov, ordered_objects=list(objs), object_index=None,
+                 segment_incomplete=False, has_daqmx_objects_cached=None, chunk_size_cached=None,
+                 data_objects_cached=None)
+    seg._f["__chunk_bytes"] = chunk_bytes
+    st.ghost["seg"] = dict(objs=objs, ov=ov, NCs=NCs, data_position=data_position, chunk_bytes=chunk_bytes,
+                           interruptible=(mode == "interruptible"))
+    g = vc.call_method(seg, "read_raw_data", f)
+    out = vc.drain(g.value)
+    vc.ensure("no-exception", out.kind == "ret")
